@@ -3,7 +3,8 @@ import os, json, itertools
 import common, fns, sweeps, crops
 
 PROP = 'C08'
-LEAN_MODULES = ['XyzProofs.Props.C08', 'XyzProofs.Props.C08Grow', 'XyzProofs.Refine.Progress', 'XyzProofs.Refine.CheckBad']
+LEAN_MODULES = ['XyzProofs.Props.C08', 'XyzProofs.Props.C08Grow', 'XyzProofs.Refine.Progress', 'XyzProofs.Refine.CheckBad',
+                'XyzProofs.Refine.CropInit']
 THEOREMS = ['Crop.c08_grow_inv', 'Crop.c08_failed_grow_unchanged', 'Crop.c08_fn_raises', 'Crop.c08_delete_inv',
             'Crop.c08_counts', 'Crop.c08_ready_iff', 'Crop.c08_missing_spec', 'Crop.c08_grow_missing',
             'Crop.c08_resow_keeps_results', 'Crop.length_eq_iff_all', 'Crop.c08_check_bad', 'Crop.c08_check_bad_clean',
@@ -16,10 +17,12 @@ THEOREMS = ['Crop.c08_grow_inv', 'Crop.c08_failed_grow_unchanged', 'Crop.c08_fn_
             'Refine.numResults_refines', 'Refine.missingResults_refines', 'Refine.cropGrowIds_spec', 'Refine.growMissingIds_spec',
             # check_bad, translated whole as a state skeleton with a loop (anchors_checkbad.py), is the model's checkBad
             'CheckBadSk.checkBadSk_eq_spec', 'CheckBadSk.cb_removed_are_bad', 'CheckBadSk.cb_no_delete_no_change',
-            'CheckBadSk.cb_reported_listed', 'Crop.checkBadSk_refines', 'Crop.c08_check_bad_sk']
+            'CheckBadSk.cb_reported_listed', 'Crop.checkBadSk_refines', 'Crop.c08_check_bad_sk',
+            # Crop.__init__ / load_crops: when the settings are read from disk (anchors_checkbad.py)
+            'Refine.initAutoload_spec', 'Refine.opNew_refines', 'Refine.loadCrops_autoloads']
 ANCHORS = ['isReady', 'sowerGetsExtra', 'sowerFlush', 'nbFromBs', 'capNb', 'bsOfNb', 'remOfNb', 'bothOk', 'growSk',
            'cropIsPrepared', 'cropCalcProgress', 'cropIsReadyToReap', 'cropMissingResults', 'cropNumSownBatches', 'cropNumResults',
-           'cropGrowIds', 'growMissingIds', 'checkBadSk']
+           'cropGrowIds', 'growMissingIds', 'checkBadSk', 'initAutoload', 'initAutoloadDefault', 'loadCropsAutoloads']
 RULE = ("random histories (length <= 12) of {sow, re-sow with the same shape, grow one id, grow a subset, grow_missing, grow "
         "with a function that raises on chosen settings, delete a result file, corrupt a result + check_bad, a stranded temporary "
         "of a killed grower, reload the Crop, query, query before the first sow, query through a handle made before "
